@@ -193,3 +193,129 @@ void msi(Rng& rng)
         }
     }
 }
+
+////////////////////////////////////////////////////////////////////////////////
+// numbers whose rounding mode is set and that have an ELASTIC layer (either nest order), static_integer, static_number:
+//   C08 nst <div|mod> <mode> <kind> <lspec> <rspec> <l> <r> => <number>
+// kind: re = rounding_integer<elastic_integer<D,N>,Tag>, er = elastic_integer<D, rounding_integer<N,Tag>>,
+//       si = static_integer<D,Tag,undefined,N>, sn = static_number<D,0,Tag,undefined,N>;
+// spec: s<D> / u<D> (N = int / unsigned), bi / bu = a built-in int / unsigned operand (the other one is of the kind)
+template<int D, class N, class Tag>
+using K_re = rounding_integer<elastic_integer<D, N>, Tag>;
+template<int D, class N, class Tag>
+using K_er = elastic_integer<D, rounding_integer<N, Tag>>;
+template<int D, class N, class Tag>
+using K_si = static_integer<D, Tag, undefined_overflow_tag, N>;
+template<int D, class N, class Tag>
+using K_sn = static_number<D, 0, Tag, undefined_overflow_tag, N>;
+
+inline std::vector<long long> dvals(Rng& rng, long long lo, long long hi, int nrand)
+{
+    std::vector<long long> v;
+    auto add = [&](long long x) {
+        if (x >= lo && x <= hi) push_unique(v, x);
+    };
+    for (long long x : {0LL, 1LL, 2LL, 3LL, 4LL, 6LL, 7LL, hi, hi - 1, hi - 2, hi / 2, hi / 2 + 1, hi / 3}) {
+        add(x);
+        add(-x);
+    }
+    for (int i = 0; i < nrand; ++i) add(lo + (long long)(rng.next() % (unsigned long long)(hi - lo + 1)));
+    return v;
+}
+
+template<class A>
+constexpr A mk(long long v)
+{
+    if constexpr (std::is_integral_v<A>)
+        return static_cast<A>(v);
+    else
+        return A{v};
+}
+
+// lspec/rspec: digits > 0 and signedness of an operand of the kind, digits 0 = built-in int (signed) / unsigned
+template<class Tag, class A, class B>
+void nst(Rng& rng, char const* kind, int dl, bool sl, int dr, bool sr)
+{
+    std::string mode = TagN<Tag>::name();
+    auto range = [](int d, bool s, long long& lo, long long& hi) {
+        hi = d ? (1LL << d) - 1 : (1LL << 20) + 3;  // built-in operands: bounded (the bias of nearest/ties-up near the limits of int is C08's known class)
+        lo = s ? -hi : 0;
+    };
+    long long llo, lhi, rlo, rhi;
+    range(dl, sl, llo, lhi);
+    range(dr, sr, rlo, rhi);
+    auto lv = dvals(rng, llo, lhi, 6 * scale_from_env());
+    auto rv = dvals(rng, rlo, rhi, 5 * scale_from_env());
+    // tie and near-tie dividends
+    std::vector<long long> extra;
+    for (std::size_t k = 0; k < rv.size(); k += 3) {
+        long long r = rv[k];
+        if (r == 0) continue;
+        long long q = (long long)(rng.next() % 9) - 4;
+        for (int s = -1; s <= 1; s += 2)
+            for (int d = -1; d <= 1; ++d) {
+                long long v = q * r + s * (r / 2) + d;
+                if (v >= llo && v <= lhi) extra.push_back(v);
+            }
+    }
+    for (auto e : extra) push_unique(lv, e);
+    auto spec = [](int d, bool s) { return d ? std::string(s ? "s" : "u") + std::to_string(d) : std::string(s ? "bi" : "bu"); };
+    std::string ls = spec(dl, sl), rs = spec(dr, sr);
+    for (long long l : lv)
+        for (long long r : rv) {
+            if (r == 0) continue;
+            A a = mk<A>(l);
+            B b = mk<B>(r);
+            printf("C08 nst div %s %s %s %s %lld %lld => ", mode.c_str(), kind, ls.c_str(), rs.c_str(), l, r);
+            VH_RUN(a / b, print_num)
+            printf("C08 nst mod %s %s %s %s %lld %lld => ", mode.c_str(), kind, ls.c_str(), rs.c_str(), l, r);
+            VH_RUN(a % b, print_num)
+        }
+}
+
+// an overflow-checked number combined with a rounding tag, in either nest order, over representations narrower than int:
+//   C08 ovr <div|mod> <mode> <otag> <or|ro> <L> <R> <l> <r> => <number>
+//   or = overflow_integer<rounding_integer<T,RTag>,OTag>,  ro = rounding_integer<overflow_integer<T,OTag>,RTag>
+// the quotient is computed in the promoted type (int), where every rounded quotient of 8/16-bit values is representable
+// (lowest / -1 included): no overflow signal may occur.
+template<class RTag, class OTag, class L, class R, bool OvOutside>
+void ovr(Rng& rng, bool exhaustive)
+{
+    using A = std::conditional_t<OvOutside, overflow_integer<rounding_integer<L, RTag>, OTag>, rounding_integer<overflow_integer<L, OTag>, RTag>>;
+    using B = std::conditional_t<OvOutside, overflow_integer<rounding_integer<R, RTag>, OTag>, rounding_integer<overflow_integer<R, OTag>, RTag>>;
+    std::vector<L> lv;
+    std::vector<R> rv;
+    if (exhaustive && sizeof(L) == 1 && sizeof(R) == 1) {
+        lv = all_vals<L>();
+        rv = all_vals<R>();
+    } else {
+        lv = vals<L>(rng, 5 * scale_from_env(), 6);
+        rv = vals<R>(rng, 4 * scale_from_env(), 6);
+        push_unique(lv, std::numeric_limits<L>::lowest());
+        push_unique(lv, std::numeric_limits<L>::max());
+        if (std::is_signed_v<R>) push_unique(rv, R(-1));
+        push_unique(rv, R(1));
+        push_unique(rv, R(2));
+    }
+    std::string mode = TagN<RTag>::name(), ot = TagN<OTag>::name();
+    for (L l : lv)
+        for (R r : rv) {
+            if (r == 0) continue;
+            A a{l};
+            B b{r};
+            printf("C08 ovr div %s %s %s %s %s ", mode.c_str(), ot.c_str(), OvOutside ? "or" : "ro", tn<L>().c_str(), tn<R>().c_str());
+            prv(l);
+            putchar(' ');
+            prv(r);
+            fputs(" => ", stdout);
+            VH_RUN(a / b, print_num)
+            if (!exhaustive) {
+                printf("C08 ovr mod %s %s %s %s %s ", mode.c_str(), ot.c_str(), OvOutside ? "or" : "ro", tn<L>().c_str(), tn<R>().c_str());
+                prv(l);
+                putchar(' ');
+                prv(r);
+                fputs(" => ", stdout);
+                VH_RUN(a % b, print_num)
+            }
+        }
+}
